@@ -1,7 +1,7 @@
 from vf import Query
 
 SRC = ["src/mc/transition/Transition.cpp", "src/mc/transition/TransitionSynchro.cpp", "src/mc/transition/TransitionComm.cpp", "src/mc/transition/TransitionActor.cpp",
-       "src/mc/transition/TransitionAny.cpp", "src/mc/transition/TransitionRandom.cpp"]
+       "src/mc/transition/TransitionAny.cpp", "src/mc/transition/TransitionRandom.cpp", "src/mc/api/BasicTypes.cpp"]
 TYPES = ["RANDOM", "ACTOR_JOIN", "ACTOR_SLEEP", "ACTOR_CREATE", "ACTOR_EXIT", "TESTANY", "WAITANY", "BARRIER_ASYNC_LOCK", "BARRIER_WAIT", "COMM_ASYNC_RECV",
          "COMM_ASYNC_SEND", "COMM_IPROBE", "COMM_TEST", "COMM_WAIT", "MUTEX_ASYNC_LOCK", "MUTEX_TEST", "MUTEX_TRYLOCK", "MUTEX_UNLOCK", "MUTEX_WAIT", "MUTEX_LOCK_NOMC",
          "SEM_ASYNC_LOCK", "SEM_UNLOCK", "SEM_WAIT", "SEM_LOCK_NOMC", "CONDVAR_ASYNC_LOCK", "CONDVAR_BROADCAST", "CONDVAR_SIGNAL", "CONDVAR_WAIT", "CONDVAR_NOMC"]
